@@ -50,7 +50,11 @@ type Config struct {
 	// Dormant[seq]: the channel has a storage record but its access hash is missing while the
 	// state is loaded (loadChannels skips it); its first pushed update starts the worker from
 	// the stored pts.
-	Dormant     []bool
+	Dormant []bool
+	// Foreign: a channel difference fetched on an explicit updateChannelTooLong also carries, in
+	// other_updates, the latest visible update of every OTHER channel that has a worker (the
+	// client must route it through that channel's own sequence).
+	Foreign     bool
 	SliceLim    int // >0: at most that many pts entries per common difference (differenceSlice)
 	TooLongThr  int // >0: common difference answers differenceTooLong when vis-req > thr
 	CSliceLim   int
@@ -413,6 +417,14 @@ type Server struct {
 	vis []int
 	// failNext[scope]: the next difference RPC of that scope (0 common, 2+i channel) fails
 	failNext map[int]bool
+	// foreignFor: sequences of the channels whose latest update is added to channel differences now
+	foreignFor []int
+}
+
+func (s *Server) setForeign(seqs []int) {
+	s.mu.Lock()
+	s.foreignFor = seqs
+	s.mu.Unlock()
 }
 
 var errTransient = errors.New("transient RPC failure (injected)")
@@ -632,6 +644,28 @@ func (s *Server) UpdatesGetChannelDifference(ctx context.Context, req *tg.Update
 	if !final {
 		s.rec.contScope[seq] = true
 	}
+	var foreign []Entry
+	s.mu.Lock()
+	for _, b := range s.foreignFor {
+		if b == seq {
+			continue
+		}
+		var last *Entry
+		for i := range s.log {
+			if e := &s.log[i]; e.Seq == b && e.Pos <= s.vis[b] && (last == nil || e.Pos > last.Pos) {
+				last = e
+			}
+		}
+		if last != nil {
+			foreign = append(foreign, *last)
+			others = append(others, mkUpdate(*last))
+		}
+	}
+	s.mu.Unlock()
+	if len(foreign) > 0 {
+		return fin(fmt.Sprintf("channelDifference msgs=[%s] others=[%s] pts=%d final=%v foreign=[%s]", idsOf(om), idsOf(oo), cut, final, idsOf(foreign)),
+			&tg.UpdatesChannelDifference{Final: final, Pts: cut, NewMessages: msgs, OtherUpdates: others})
+	}
 	return fin(fmt.Sprintf("channelDifference msgs=[%s] others=[%s] pts=%d final=%v", idsOf(om), idsOf(oo), cut, final),
 		&tg.UpdatesChannelDifference{Final: final, Pts: cut, NewMessages: msgs, OtherUpdates: others})
 }
@@ -652,9 +686,10 @@ type Run struct {
 	tracked    map[int]bool // channel workers that exist (sentinels are only sent to those)
 	phaseStart time.Time    // first push after startup / a timer wait: timers cannot fire before +500 ms
 
-	hash     *hasher
-	NoModel  bool         // the history contains operations the Coq model does not cover (HandleAffected)
-	Affected map[int]bool // log entries reported to the manager as our own action (never dispatched)
+	foreignCID int
+	hash       *hasher
+	NoModel    bool         // the history contains operations the Coq model does not cover (HandleAffected)
+	Affected   map[int]bool // log entries reported to the manager as our own action (never dispatched)
 
 	Executed     []Op // the ops as the model must replay them (timers as observed)
 	Interference bool // a timer fired while a push was being processed (placement ambiguous)
@@ -1029,6 +1064,19 @@ func (r *Run) Exec(ops []Op) {
 			if o.Fail {
 				r.srv.arm(o.Seq, true)
 			}
+			t0 := 0
+			if r.h.Cfg.Foreign && !o.Fail {
+				var fs []int
+				for seq := 2; seq < r.h.Cfg.NSeq(); seq++ {
+					if r.tracked[seq] {
+						fs = append(fs, seq)
+					}
+				}
+				r.srv.setForeign(fs)
+				r.rec.mu.Lock()
+				t0 = len(r.rec.trace)
+				r.rec.mu.Unlock()
+			}
 			if err := r.mgr.Handle(r.ctx, &tg.Updates{Updates: []tg.UpdateClass{&tg.UpdateChannelTooLong{ChannelID: ChanID(o.Seq)}}}); err != nil || !r.Sync() {
 				fail("channel recovery never became quiescent", i)
 				return
@@ -1039,6 +1087,29 @@ func (r *Run) Exec(ops []Op) {
 				r.Executed = append(r.Executed, o)
 			}
 			r.srv.arm(o.Seq, false)
+			if r.h.Cfg.Foreign && !o.Fail {
+				// the foreign updates of the answers travel through the main loop to their own channel
+				// workers exactly like a pushed container: the model replays them as one
+				r.srv.setForeign(nil)
+				r.rec.mu.Lock()
+				evs := append([]Ev(nil), r.rec.trace[t0:]...)
+				r.rec.mu.Unlock()
+				for _, e := range evs {
+					if e.T == EvAPI {
+						if i := strings.Index(e.Info, "foreign=["); i >= 0 {
+							var ids []int
+							rest := e.Info[i+9:]
+							for _, x := range strings.Split(rest[:strings.Index(rest, "]")], ",") {
+								if v, err := strconv.Atoi(x); err == nil {
+									ids = append(ids, v)
+								}
+							}
+							r.foreignCID++
+							r.Executed = append(r.Executed, Op{K: OpPush, Vis: o.Vis, Items: ids, CID: 700000 + r.foreignCID})
+						}
+					}
+				}
+			}
 			want := n0 + 1
 			if !r.tracked[o.Seq] {
 				want = n0 // updateChannelTooLong for a channel without worker is ignored
@@ -1596,6 +1667,10 @@ func Gen(r *hx.Rand, o GenOpts) History {
 		cfg.Dormant[i] = !numbered && !wantUntracked[i] && r.Chance(1, 4)
 	}
 	useAffected := r.Chance(1, 4)
+	cfg.Foreign = nch >= 2 && r.Chance(1, 3)
+	// boundary counts around the client's difference limit (diffLimitUser = 100): one multi-count
+	// other update may span more than a whole difference
+	bigCounts := r.Chance(1, 4)
 	h := History{Cfg: cfg}
 	kindOf := map[int]Kind{}
 	id := 1
@@ -1623,6 +1698,9 @@ func Gen(r *hx.Rand, o GenOpts) History {
 			if r.Chance(1, 4) {
 				e.Cnt = 2
 			}
+			if bigCounts && r.Chance(1, 3) {
+				e.Cnt = []int{99, 100, 101, 150}[r.Intn(4)]
+			}
 		case seq == 0:
 			e.Kind = KMsg
 		case seq == 1 && other:
@@ -1633,6 +1711,9 @@ func Gen(r *hx.Rand, o GenOpts) History {
 			e.Kind = KCOther
 			if r.Chance(1, 4) {
 				e.Cnt = 2
+			}
+			if bigCounts && r.Chance(1, 2) {
+				e.Cnt = []int{99, 100, 101, 150}[r.Intn(4)]
 			}
 		default:
 			e.Kind = KCMsg
